@@ -2,6 +2,9 @@
 package sync
 
 import (
+	"unsafe"
+	"reflect"
+	"fmt"
 	stdsync "sync"
 
 	"verif/vrt"
@@ -223,12 +226,13 @@ type Pool struct {
 	o     vrt.Obj
 	items []any
 	reg   bool
+	dup   bool // a double release was already reported in this execution
 }
 
 func (p *Pool) register() {
 	if !p.reg {
 		p.reg = true
-		vrt.RegisterReset(func() { p.items = nil; p.o = vrt.Obj{} })
+		vrt.RegisterReset(func() { p.items = nil; p.o = vrt.Obj{}; p.dup = false })
 	}
 }
 
@@ -262,7 +266,35 @@ func (p *Pool) Put(x any) {
 		vrt.BlockOp("Pool.Put", func() bool { return true })
 		p.o.Touch(0x9e8)
 	}
+	// an object that is already in the pool must not be put again: two later Gets would hand
+	// the same memory to two users (checked for byte slices and pointers, by identity)
+	if k := poolIdentity(x); k != 0 {
+		for _, it := range p.items {
+			if poolIdentity(it) == k && !p.dup {
+				p.dup = true
+				vrt.Fail(fmt.Sprintf("sync.Pool: a %T that is already in the pool was put again (released twice): two later Gets would share it", x))
+				break
+			}
+		}
+	}
 	p.items = append(p.items, x)
+}
+
+func poolIdentity(x any) uintptr {
+	switch v := x.(type) {
+	case []byte:
+		if cap(v) == 0 {
+			return 0
+		}
+		return uintptr(unsafe.Pointer(unsafe.SliceData(v[:cap(v)])))
+	case *[]byte:
+		return uintptr(unsafe.Pointer(v))
+	}
+	rv := reflect.ValueOf(x)
+	if rv.Kind() == reflect.Pointer && !rv.IsNil() {
+		return rv.Pointer()
+	}
+	return 0
 }
 
 // Map is a plain map; every method is one atomic step (reads are observations).
